@@ -13,8 +13,11 @@ CLAUSE = ("(1) in the ten public VPS/PDC/8-30 codec functions no path to a `retu
           "encoded; every field bit the range guards do not prove zero is stored somewhere (so out-of-range values must be "
           "refused, not truncated); each decoder reads every encoded field bit back from exactly the position the encoder "
           "put it.")
-NOT_DECIDED = ("BCD/MJD/UTC arithmetic of 8/30 format 1 (numeric), that one correctable bit error decodes to the same value "
-               "(Hamming arithmetic: test-hamm's domain), the TR 101 231 0xDC3 special case (documented exception, its branch "
+CLAUSE = CLAUSE + (" (4) RF-TAB: the Hamming 8/4 decoding table _vbi_hamm8_inv[256] agrees with the encoding table "
+                   "_vbi_hamm8_fwd[16] entry by entry: every code word and each of its eight single-bit neighbours decodes to "
+                   "the encoded nibble, every other byte to a negative value (so one correctable bit error cannot change a "
+                   "decoded value and a double error is refused); the 24/18 parity/error tables have their declared sizes.")
+NOT_DECIDED = ("BCD/MJD/UTC arithmetic of 8/30 format 1 (numeric), the Hamming 24/18 arithmetic, the TR 101 231 0xDC3 special case (documented exception, its branch "
                "is excluded from the bit-provenance comparison).")
 
 UNIT_VPS = "src/vps.c"
@@ -89,6 +92,7 @@ def run(ctx, run):
     run.floor("RF-NEG Hamming decode call sites in the 8/30-2 decoders", n_src, 6)
     run.floor("RF-NEG output stores in the 8/30-2 decoders", n_stores, 10)
     _neg_selftest(ctx, run)
+    _hamming_tables(ctx, run)
 
     # ---- RF-BITS ----------------------------------------------------------------
     bits.check_vps(ctx, run)
@@ -107,3 +111,46 @@ def _neg_selftest(ctx, run):
     if res != want:
         raise AnalysisBroken("self-test failed: RF-NEG on selftest/pos/neg_pos.c gave %s, expected %s" % (res, want))
     run.extra["positive_example_neg"] = "selftest/pos/neg_pos.c: 3 bad shapes reported, 2 good shapes silent"
+
+
+def _hamming_tables(ctx, run):
+    fwd, g1 = ctx.global_table_values("_vbi_hamm8_fwd")
+    inv, g2 = ctx.global_table_values("_vbi_hamm8_inv")
+    if not fwd or not inv or len(fwd) != 16 or len(inv) != 256:
+        raise AnalysisBroken("Hamming 8/4 tables not found or of unexpected size (%s, %s)"
+                             % (len(fwd) if fwd else None, len(inv) if inv else None))
+    loc = "%s:%d" % (g2.get("file", "src/hamm-tables.h"), g2.get("line", 0))
+    expect = {}
+    clash = []
+    for n, c in enumerate(fwd):
+        for v in [c] + [c ^ (1 << k) for k in range(8)]:
+            if v in expect and expect[v] != n:
+                clash.append(v)
+            expect[v] = n
+    key = "RF-TAB:hamm8:distance"
+    if clash:
+        run.violation("RF-TAB", key, "two code words of _vbi_hamm8_fwd[] are within two bit flips of each other (byte(s) %s): the code "
+                      "cannot correct single errors" % ", ".join("0x%02X" % v for v in clash[:4]), loc)
+    else:
+        run.holds("RF-TAB", key, "the 16 code words of _vbi_hamm8_fwd[] have pairwise disjoint single-error neighbourhoods (144 bytes)", loc)
+    bad = []
+    for v in range(256):
+        got = inv[v]
+        if got > 127:
+            got -= 256
+        want = expect.get(v)
+        if want is None:
+            if got >= 0:
+                bad.append((v, got, "negative (two or more bit errors)"))
+        elif (got & 0xF if got >= 0 else got) != want or got < 0:
+            bad.append((v, got, want))
+    key = "RF-TAB:hamm8:inverse-agrees-with-forward"
+    if bad:
+        v, got, want = bad[0]
+        run.violation("RF-TAB", key, "_vbi_hamm8_inv[0x%02X] is %s but the encoding table says it must decode to %s (%d entr%s "
+                      "disagree): a byte with one correctable bit error decodes to a different value / an uncorrectable byte is "
+                      "accepted" % (v, got, want, len(bad), "y" if len(bad) == 1 else "ies"), loc,
+                      witness={"entries": [[hex(a), b, str(c)] for a, b, c in bad[:8]]})
+    else:
+        run.holds("RF-TAB", key, "all 256 entries of _vbi_hamm8_inv[] agree with _vbi_hamm8_fwd[]: 144 decode to their nibble, 112 are "
+                  "negative", loc)
